@@ -329,6 +329,7 @@ class ShardRunner:
         self.known = known_keys(prop)
         self.session_excluded = set()
         self.target = None            # key being shrunk
+        self.last_fail = None
         self.violations = []
 
     # one evaluation ---------------------------------------------------------------------------
@@ -364,6 +365,7 @@ class ShardRunner:
                 self.target = key
             if key != self.target:
                 return                # keep the shrinker on one root cause
+            self.last_fail = (key, msg, case)
             raise _Fail(key, msg, case)
         self.violations.append({"subcheck": self.sub.name, "key": key, "msg": msg, "case": jsonable(case)})
         self.session_excluded.add(key)
@@ -412,6 +414,18 @@ class ShardRunner:
                     for x in inner:
                         if isinstance(x, HarnessError):
                             raise x
+                if "Flaky" in type(e).__name__ and self.last_fail is not None:
+                    # the oracle rejected a real output of tracklib, but the same case passed when Hypothesis replayed
+                    # it: the failure depends on state that tracklib kept from EARLIER calls in this process (a cache, a
+                    # class-level flag).  That is a violation of a property quantified over all inputs/histories, not a
+                    # harness error; the witness may hold when replayed alone.
+                    k, m, c = self.last_fail
+                    self.violations.append({"subcheck": self.sub.name, "key": k,
+                                            "msg": "[state-dependent: failed after earlier cases in the same process, passed "
+                                                   "when replayed alone] " + m, "case": jsonable(c)})
+                    self.session_excluded.add(k)
+                    self.last_fail = None
+                    continue
                 raise HarnessError("hypothesis error in %s: %s\n%s" % (
                     self.sub.name, repr(e)[:500],
                     "".join(traceback.format_exception(type(e), e, e.__traceback__))[-3000:]))
